@@ -5,7 +5,7 @@ model and a plain-loop oracle; random operation sequences issued alternately thr
 flatten, squeeze, raw misaligned buffer) and its source: buffer after every step (read back through the OTHER name)
 vs the model's state machine and a plain-array oracle, store order, aligned-access counts (0 through maps);
 (K4) real element types: maps over buffers at every misalignment 0..63 bytes, constructors, converters."""
-import itertools, random
+import itertools, os, random, re
 from vlib import core, symrun, flow
 
 PID = "C20"
@@ -191,9 +191,15 @@ def nontrivial(inp, mo):
         return len(d["dims"].split("x")) >= 2
     return "," in d.get("ops", "")
 
+def _only(fn):
+    # development aid (mutation self-test): C20_GROUPS=<regex on the group key> restricts the box; unset in normal use
+    flt = os.environ.get("C20_GROUPS")
+    if not flt: return fn
+    return lambda tier, seed: [g for g in fn(tier, seed) if re.search(flt, g["key"])]
+
 def run(tier, seed):
     return flow.standard_run(
-        PID, tier, seed, "Fastor.C20.map_is_alias", "FastorModel.Model.MapAlias / FastorModel.Model.Layout", sym_groups, real_groups,
+        PID, tier, seed, "Fastor.C20.map_is_alias", "FastorModel.Model.MapAlias / FastorModel.Model.Layout", _only(sym_groups), _only(real_groups),
         assumptions=["vector primitives are lane-wise (C08); element-wise expression evaluation is C02's model (imported, with is_aligned = false for maps)",
                      "operations through maps that are modelled: element write, fill, compound assignment with a scalar / a tensor / an expression, plain assignment of an "
                      "element-wise expression, assignment from the other name, same-type copy assignment, reading into an owning tensor; views, reductions and "
@@ -211,7 +217,7 @@ def sym_call_of(inp):
         dims = tuple(int(x) for x in d["dims"].split("x"))
         call = ilist_call(sz, dims) if d["fn"] == "ilist" else layout_call(sz, d["fn"], d["src"], dims)
     else:
-        ids = sorted(set(int(t.split(":")[2]) for t in d["ops"].split(",") if t.split(":")[1][0] in "er" and t.split(":")[1] != "rd" or t.split(":")[1] == "rd"))
+        ids = sorted(set(int(t.split(":")[2]) for t in d["ops"].split(",") if t.split(":")[1][0] == "e" or t.split(":")[1] == "rd"))
         ids = [i for i in ids if i < NEXPR] or [0]
         call = mapops_call(sz, d["kind"], int(d["mis"]), ids, tuple(int(x) for x in d["sdims"].split("x")), tuple(int(x) for x in d["mdims"].split("x")), d["ops"])
     return {"key": "replay", "header": "map_sym.h", "isa": d["cfg"], "calls": [call]}
